@@ -189,8 +189,10 @@ Fixpoint parse_fastq (fuel : nat) (ls : list (list Z)) : option (list row) :=
            | _ => None
            end
   end.
-(* the reader as it is cannot return a table in which an identifier (SequenceID, kind 6) column is empty
-   in every row (string_array: reshape((-1, 0)) of zero bytes).  SWITCH: true = as it is (no fix proposed) *)
+(* the delimited reader as it is cannot return a table in which an identifier (SequenceID, kind 6) column is
+   empty in every row (file_buffers.move_intervals_to_right_padded_array: reshape((-1, 0)) of zero bytes; the
+   FASTA/FASTQ name path through string_array was repaired in /repo b1580f3).
+   SWITCH: true = as it is (no fix proposed) *)
 Definition reader_needs_nonempty_id := true.
 Definition id_cols_ok (schema : list Z) (rows : list row) : bool :=
   match rows with
@@ -207,9 +209,10 @@ Definition parse_raw (f : fmt) (schema : list Z) (file : list Z) : option (list 
   | Fasta _ => parse_fasta None (lines file)
   | Fastq => let ls := lines file in parse_fastq (length ls) ls
   end.
+Definition delimited (f : fmt) : bool := match f with Fasta _ | Fastq => false | _ => true end.
 Definition parse_file (f : fmt) (schema : list Z) (file : list Z) : option (list row) :=
   match parse_raw f schema file with
-  | Some rs => if negb reader_needs_nonempty_id || id_cols_ok schema rs then Some rs else None
+  | Some rs => if negb (reader_needs_nonempty_id && delimited f) || id_cols_ok schema rs then Some rs else None
   | None => None
   end.
 
